@@ -28,7 +28,9 @@ type memRegister struct {
 	attempts []attempt
 	onAttempt func() // called (outside the lock) at every update attempt
 
-	kv map[string]string // SaveKV / GetKV
+	// 0 healthy; 1 etcd unreachable, the namespace cache still serves (remote read, KV and updates fail); 2 all fails
+	mode int
+	kv   map[string]string // SaveKV / GetKV
 	metaEpoch int64      // modification index of the namespace meta
 
 	// one (feed, ack) pair per WatchDataNodes caller (the main and the learner placement driver)
@@ -76,9 +78,20 @@ func (r *memRegister) Stop()                   {}
 func (r *memRegister) GetAllPDNodes() ([]cluster.NodeInfo, error) {
 	return nil, nil
 }
+// stored is the harness's own view of the stored value (never fails)
+func (r *memRegister) stored() *cluster.PartitionMetaInfo {
+	r.mu.Lock()
+	defer r.mu.Unlock()
+	p := r.partCopy()
+	return &p
+}
+
 func (r *memRegister) GetNamespacePartInfo(ns string, partition int) (*cluster.PartitionMetaInfo, error) {
 	r.mu.Lock()
 	defer r.mu.Unlock()
+	if r.mode >= 2 {
+		return nil, errUnreach
+	}
 	if ns != r.ns || partition != 0 {
 		return nil, cluster.ErrKeyNotFound
 	}
@@ -88,6 +101,9 @@ func (r *memRegister) GetNamespacePartInfo(ns string, partition int) (*cluster.P
 func (r *memRegister) GetRemoteNamespaceReplicaInfo(ns string, partition int) (*cluster.PartitionReplicaInfo, error) {
 	r.mu.Lock()
 	defer r.mu.Unlock()
+	if r.mode >= 1 {
+		return nil, errUnreach
+	}
 	if ns != r.ns || partition != 0 {
 		return nil, cluster.ErrKeyNotFound
 	}
@@ -97,6 +113,9 @@ func (r *memRegister) GetRemoteNamespaceReplicaInfo(ns string, partition int) (*
 func (r *memRegister) GetNamespaceMetaInfo(ns string) (cluster.NamespaceMetaInfo, error) {
 	r.mu.Lock()
 	defer r.mu.Unlock()
+	if r.mode >= 2 {
+		return cluster.NamespaceMetaInfo{}, errUnreach
+	}
 	if ns != r.ns {
 		return cluster.NamespaceMetaInfo{}, cluster.ErrKeyNotFound
 	}
@@ -107,6 +126,9 @@ func (r *memRegister) GetNamespaceMetaInfo(ns string) (cluster.NamespaceMetaInfo
 func (r *memRegister) GetNamespaceInfo(ns string) ([]cluster.PartitionMetaInfo, error) {
 	r.mu.Lock()
 	defer r.mu.Unlock()
+	if r.mode >= 2 {
+		return nil, errUnreach
+	}
 	if ns != r.ns {
 		return nil, cluster.ErrKeyNotFound
 	}
@@ -115,6 +137,9 @@ func (r *memRegister) GetNamespaceInfo(ns string) ([]cluster.PartitionMetaInfo, 
 func (r *memRegister) GetAllNamespaces() (map[string]map[int]cluster.PartitionMetaInfo, cluster.EpochType, error) {
 	r.mu.Lock()
 	defer r.mu.Unlock()
+	if r.mode >= 2 {
+		return nil, 0, errUnreach
+	}
 	m := map[string]map[int]cluster.PartitionMetaInfo{r.ns: {0: r.partCopy()}}
 	return m, cluster.EpochType(r.counter), nil
 }
@@ -128,12 +153,18 @@ func (r *memRegister) GetNamespaceTableSchema(ns string, table string) (*cluster
 func (r *memRegister) SaveKV(key string, value string) error {
 	r.mu.Lock()
 	defer r.mu.Unlock()
+	if r.mode >= 1 {
+		return errUnreach
+	}
 	r.kv[key] = value
 	return nil
 }
 func (r *memRegister) GetKV(key string) (string, error) {
 	r.mu.Lock()
 	defer r.mu.Unlock()
+	if r.mode >= 1 {
+		return "", errUnreach
+	}
 	v, ok := r.kv[key]
 	if !ok {
 		return "", cluster.ErrKeyNotFound
@@ -194,6 +225,9 @@ func (r *memRegister) CreateNamespace(ns string, meta *cluster.NamespaceMetaInfo
 func (r *memRegister) UpdateNamespaceMetaInfo(ns string, meta *cluster.NamespaceMetaInfo, oldGen cluster.EpochType) error {
 	r.mu.Lock()
 	defer r.mu.Unlock()
+	if r.mode >= 1 {
+		return errUnreach
+	}
 	if ns != r.ns {
 		return cluster.ErrKeyNotFound
 	}
@@ -222,6 +256,8 @@ func (r *memRegister) UpdateNamespacePartReplicaInfo(ns string, partition int,
 	switch {
 	case ns != r.ns || partition != 0:
 		err = cluster.ErrKeyNotFound
+	case r.mode >= 1:
+		err = errUnreach
 	case r.failNext > 0:
 		r.failNext--
 		err = errUnreach
